@@ -384,7 +384,7 @@ func TestVerifC19Rejects(t *testing.T) {
 	defer res.Write()
 	log.Info("warm up")
 	advs := c19Adversarial()
-	res.Rule = fmt.Sprintf("%d structurally valid create requests with adversarial values (names with '.', '/', empty, over-long; '*' with positions; undecodable / non-proto / non-virtual / malformed-vchannel / mixed-collection positions, a valid position followed by an undecodable one; negative buffer and timeout values; both / no targets; kafka without topic; user without password; foreign rpc channel; undecodable rpc position; mapping of an unselected collection) sent to the empty server and after every accepted prefix of length <= 2 out of {create a, create db1/*, create a then pause}; the answer must be a well-formed error (or, if accepted, later requests must still be answered) and a rejected request must leave tasks, checkpoints, duplicate bookkeeping and the store dump unchanged; non-trivial = rejected requests on a non-empty server", len(advs))
+	res.Rule = fmt.Sprintf("%d structurally valid create requests with adversarial values (names with '.', '/', empty, over-long; '*' with positions; undecodable / non-proto / non-virtual / malformed-vchannel / mixed-collection positions, a valid position followed by an undecodable one; negative buffer and timeout values; both / no targets; kafka without topic; user without password; foreign rpc channel; undecodable rpc position; mapping of an unselected collection) - each alone, in three more contexts of the request (rpc channel name left out, a valid collection position filled in, both) and together with every other one - sent to the empty server and after every accepted prefix of length <= 2 out of {create a, create db1/*, create a then pause}; the answer must be a well-formed error (or, if accepted, later requests must still be answered) and a rejected request must leave tasks, checkpoints, duplicate bookkeeping and the store dump unchanged; non-trivial = rejected requests on a non-empty server", len(advs))
 	prefixes := [][]map[string]interface{}{nil}
 	mk := func(id string, f func(d map[string]interface{})) map[string]interface{} {
 		d := c19Valid(id)["create"]
@@ -403,9 +403,47 @@ func TestVerifC19Rejects(t *testing.T) {
 		[]map[string]interface{}{mk("p0", dbstar)},
 		[]map[string]interface{}{mk("p0", bcoll), mk("p1", dbstar)},
 	)
+	// every adversarial value is also tried in other contexts of the same request (optional fields left out or
+	// filled in decide which validation branch sees the value) and together with every other adversarial value
+	type c19Variant struct {
+		c19Adv
+		mustReject bool
+	}
+	validPos := func(d map[string]interface{}) {
+		if cis, ok := d["collection_infos"].([]interface{}); ok && len(cis) == 1 {
+			if ci, ok := cis[0].(map[string]interface{}); ok && ci["positions"] == nil {
+				ci["positions"] = map[string]interface{}{"src-dml_0_7v0": c19Pos("src-dml_0_7v0", "x")}
+			}
+		}
+	}
+	noRPCName := func(d map[string]interface{}) {
+		if r, ok := d["rpc_channel_info"].(map[string]interface{}); ok {
+			delete(r, "name")
+		}
+	}
+	ctxs := []c19Adv{{"", nil}, {"no-rpc-name", noRPCName}, {"with-position", validPos}, {"no-rpc-name+with-position", func(d map[string]interface{}) { noRPCName(d); validPos(d) }}}
+	var variants []c19Variant
+	for _, a := range advs {
+		for _, c := range ctxs {
+			a, c := a, c
+			if c.Mut == nil {
+				variants = append(variants, c19Variant{a, a.Name != "name-with-slash"})
+				continue
+			}
+			variants = append(variants, c19Variant{c19Adv{a.Name + "@" + c.Name, func(d map[string]interface{}) { a.Mut(d); c.Mut(d) }}, false})
+		}
+	}
+	for i, a := range advs {
+		for _, b := range advs[i+1:] {
+			a, b := a, b
+			variants = append(variants, c19Variant{c19Adv{a.Name + "+" + b.Name, func(d map[string]interface{}) { a.Mut(d); b.Mut(d) }}, false})
+		}
+	}
+	res.Bounds["variants"] = len(variants)
 	idx := 0
 	for pi, prefix := range prefixes {
-		for _, adv := range advs {
+		for _, variant := range variants {
+			adv := variant.c19Adv
 			idx++
 			if !ev.Mine(idx) {
 				continue
@@ -441,7 +479,7 @@ func TestVerifC19Rejects(t *testing.T) {
 				continue
 			}
 			after := c19Snapshot(env)
-			mustReject := adv.Name != "name-with-slash" // every other case is one of the invalid classes the statement names
+			mustReject := variant.mustReject // (single values in the plain context: each is one of the invalid classes the statement names)
 			if ans.Code == 200 && mustReject {
 				res.Violate("C19/accepted-invalid/create:"+adv.Name, fmt.Sprintf("case %s after prefix %d is semantically invalid but was answered with code 200: %s", adv.Name, pi, ans.Body), replay)
 			}
